@@ -309,7 +309,16 @@ def sf_old(interp, e, fr):
     ctx.heap = {k: dict(v) for k, v in ctx.snap.items()}
     try:
         # old() of locals: parameters are immutable bindings in the spec frame, so only the heap is swapped
-        return interp.eval(e.args[0], fr)
+        v = interp.eval(e.args[0], fr)
+        # a mutable container is materialised from the snapshot (its value THEN), so that `old(self.txbs) + data`
+        # does not read the current contents through the shared reference
+        if isinstance(v, Ref) and v.kind == "buf":
+            return ctx.heap[v.oid]["v"]
+        if isinstance(v, Ref) and v.kind in ("list", "deque"):
+            items = list(ctx.heap[v.oid]["v"])
+            ctx.heap = saved
+            return ctx.alloc(v.kind, init={"v": items})
+        return v
     finally:
         ctx.heap = saved
 
